@@ -53,6 +53,8 @@ func options(eo tyx.EncOpts, indent int) *ojg.Options {
 	o.OmitEmpty = eo.OmitEmpty
 	o.Sort = true
 	o.Indent = indent
+	o.CreateKey = eo.CreateKey
+	o.FullTypePath = eo.FullTypePath
 	switch eo.BytesAs {
 	case 0:
 		o.BytesAs = ojg.BytesAsString
@@ -633,6 +635,9 @@ func drawCase(t *rapid.T) Case {
 			OmitNil:   rapid.IntRange(0, 2).Draw(t, "omitnil") == 0,
 			OmitEmpty: rapid.IntRange(0, 3).Draw(t, "omitempty") == 0,
 			BytesAs:   rapid.IntRange(0, 2).Draw(t, "bytesas"),
+			// a type member in every struct ("^" and "~t" are no field or tag names here)
+			CreateKey:    rapid.SampledFrom([]string{"", "", "", "^", "~t"}).Draw(t, "createkey"),
+			FullTypePath: rapid.IntRange(0, 2).Draw(t, "fulltypepath") == 0,
 		},
 		Indent: rapid.SampledFrom([]int{0, 0, 2}).Draw(t, "indent"),
 		Ptr:    rapid.Bool().Draw(t, "ptr"),
@@ -642,6 +647,12 @@ func drawCase(t *rapid.T) Case {
 		return cs
 	}
 	cs.Type = tyx.DrawType(t, 2)
+	if cs.Opt.OmitEmpty {
+		// the generated struct types have no name: their type member would be an empty string,
+		// which the encoders that write directly keep and the decomposing ones drop under
+		// OmitEmpty - a corner without meaning (the member is there to find the type again)
+		cs.Opt.CreateKey = ""
+	}
 	if rapid.IntRange(0, 3).Draw(t, "history") == 0 {
 		n := rapid.IntRange(1, 2).Draw(t, "nhist")
 		for i := 0; i < n; i++ {
